@@ -38,6 +38,14 @@ def event_records(chart, prefix):
                 recs.append(dict(base(e, "StarPowerEvent"), sustain=int(e.sustain)))
             for e in t.track_events:
                 recs.append(dict(base(e, "TrackEvent"), value=cps(e.value)))
+    # the tracks and the chart itself
+    parts = [cps(str(chart.metadata)), cps(str(chart.global_events_track)), cps(str(chart.sync_track))]
+    for inst, dd in chart.instrument_tracks.items():
+        for diff, t in dd.items():
+            recs.append({"id": f"{prefix}-{len(recs)}", "props": ["X01"], "cls": "InstrumentTrack", "inst": cps(inst.name), "diff": cps(diff.name),
+                         "n": len(t.note_events), "m": len(t.star_power_events), "str": cps(str(t))})
+            parts.append(cps(str(t)))
+    recs.append({"id": f"{prefix}-{len(recs)}", "props": ["X01"], "cls": "Chart", "parts": parts, "str": cps(str(chart))})
     return recs
 
 
